@@ -27,8 +27,16 @@ impl C05 {
     fn check(&self, cx: &mut Cx, lib: &LefLibrary, via_save: bool, src: &str) {
         cx.eval();
         let path = cx.tmp("out.lef");
+        let stale = cx.n % 2 == 0;
+        if via_save && stale {
+            cx.count("saved_over_existing_longer_file");
+        }
         let written = guard(|| -> Result<String, lef21::LefError> {
             if via_save {
+                // history dimension: every other case saves over an existing, much longer file
+                if stale {
+                    let _ = std::fs::write(&path, "# older copy\nMACRO old\n  SIZE 1 BY 1 ;\nEND old\n".repeat(2000));
+                }
                 lib.save(&path)?;
                 Ok(std::fs::read_to_string(&path).unwrap_or_default())
             } else {
